@@ -126,7 +126,10 @@ func loadOp[T any](ctor string, body []byte, load func([]byte) (T, error), print
 
 // variant builds the document for a load op: mode 0 canonical, 1 text-perturbed,
 // 2 semantically perturbed, 3 both.
-func variant[T any](r *rand.Rand, m *T, mode int) ([]byte, string) {
+func variant[T any](r *rand.Rand, m *T, mode int) ([]byte, string) { return variantKind(r, m, mode, -1) }
+
+// variantKind: like variant, with the textual perturbation fixed when kind >= 0.
+func variantKind[T any](r *rand.Rand, m *T, mode int, kind int) ([]byte, string) {
 	label := "canon"
 	if mode == 2 || mode == 3 {
 		label = perturbStruct(r, m)
@@ -137,7 +140,7 @@ func variant[T any](r *rand.Rand, m *T, mode int) ([]byte, string) {
 	}
 	if mode == 1 || mode == 3 {
 		var l2 string
-		body, l2 = perturbText(r, body)
+		body, l2 = perturbTextKind(r, body, kind)
 		if mode == 1 {
 			label = l2
 		} else {
@@ -186,22 +189,22 @@ func runCodecOp(o op) (string, string) {
 	switch o.Op {
 	case "load_slot":
 		m := genSlotManifest(r, uint16(r.IntN(256)), r.IntN(2) == 0)
-		body, label := variant(r, &m, mode)
+		body, label := variantKind(r, &m, mode, o.C-1)
 		t, res := loadOp("CLoadSlot", body, backup.LoadSlotManifest, pSM)
 		return t, "load_slot/" + coarse(label) + "/" + res
 	case "load_archive":
 		m := genArchiveManifest(r)
-		body, label := variant(r, &m, mode)
+		body, label := variantKind(r, &m, mode, o.C-1)
 		t, res := loadOp("CLoadArchive", body, backup.LoadArchiveManifest, pAM)
 		return t, "load_archive/" + coarse(label) + "/" + res
 	case "load_msg":
 		m := genMsgManifest(r)
-		body, label := variant(r, &m, mode)
+		body, label := variantKind(r, &m, mode, o.C-1)
 		t, res := loadOp("CLoadMsg", body, backup.LoadMessageChunkManifest, pMM)
 		return t, "load_msg/" + coarse(label) + "/" + res
 	case "load_repo":
 		m := genRepoMarker(r)
-		body, label := variant(r, &m, mode)
+		body, label := variantKind(r, &m, mode, o.C-1)
 		t, res := loadOp("CLoadRepo", body, backup.LoadRepositoryMarker, pRM)
 		return t, "load_repo/" + coarse(label) + "/" + res
 	case "load_marker":
